@@ -269,6 +269,13 @@ impl<'a> ExecutorBuilder<'a> {
 
                 if needs_full_columns {
                     if let POp::ProjectExec(project) = sort.input {
+                        // sorting below the projection rebuilds the select list from plain columns only:
+                        // usable only when every select item is a plain column
+                        let plain_projection = project
+                            .expressions
+                            .iter()
+                            .all(|e| matches!(e, crate::sql::ast::Expr::Column(_)));
+                        if plain_projection {
                         let full_column_map = self.compute_input_column_map(project.input);
                         let child = self.build_operator(project.input, source, column_map)?;
 
@@ -314,6 +321,7 @@ impl<'a> ExecutorBuilder<'a> {
                             projections,
                             self.ctx.arena,
                         ));
+                        }
                     }
                 }
 
